@@ -1,9 +1,17 @@
 package eng
 
-import "hash/fnv"
+import (
+	"hash/fnv"
+	"net"
+)
 
 func fnv64(b []byte) uint64 {
 	h := fnv.New64a()
 	h.Write(b)
 	return h.Sum64()
 }
+
+func parseIP(s string) net.IP { return net.ParseIP(s) }
+
+// loIface is the zero interface: an unbound listener.
+func loIface() net.Interface { return net.Interface{} }
